@@ -16,6 +16,9 @@ COQDIR = os.path.join(VERIF, "coq")
 THEORIES = os.path.join(COQDIR, "theories")
 WORK = os.path.join(VERIF, "work")
 EVID = os.path.join(VERIF, "evidence")
+if os.path.realpath(os.environ.get("VERIF_REPO", "/repo")) != "/repo":
+    # mutation self-tests run against a scratch copy: their evidence must not replace /repo's
+    EVID = os.path.join(VERIF, "work", "evidence-scratch")
 REPLAYS = os.path.join(VERIF, "out", "replays")
 KNOWN = os.path.join(VERIF, "known_findings.json")
 COQC_TIMEOUT = 600
